@@ -45,11 +45,10 @@ func Replacement(s, rep string, cap *Captures) string {
 		}
 		return c
 	}
-	add := func(ci int) (tr byte) {
+	add := func(ci int) {
 		for i := cap[2*ci]; i < cap[2*ci+1]; i++ {
 			sb.WriteByte(trcase(s[i]))
 		}
-		return
 	}
 	for i := 0; i < nr; i++ {
 		c := rep[i]
@@ -60,7 +59,7 @@ func Replacement(s, rep string, cap *Captures) string {
 			c = rep[i]
 			switch rep[i] {
 			case '0', '1', '2', '3', '4', '5', '6', '7', '8', '9':
-				tr = add(int(c - '0'))
+				add(int(c - '0'))
 			case 'n':
 				sb.WriteByte('\n')
 			case 't':
